@@ -64,6 +64,25 @@ def hand_graphs():
                         "branch_lengths": P("blens", [0.1, 0.25, 0.07, 0.31, 0.12])},
          "alpha": P("alpha", [1.3]), "c": P("c", [0.7]), "shape": P("shape", [2.1]), "rate": P("rate", [1.7])},
     ]
+    seqs = ["ACGTACGGTA", "ACGAACGTTA", "TCGTACATTC", "TCGTACGTTC"]
+    g["hand_timetree_plain"] = [
+        {"id": "taxa", "type": "Taxa", "taxa": [{"id": l, "type": "Taxon", "attributes": {"date": d}}
+                                                for l, d in zip(labels, [0.0, 0.5, 0.0, 1.0])]},
+        {"id": "joint", "type": "JointDistributionModel", "distributions": [
+            {"id": "like", "type": "TreeLikelihoodModel",
+             "tree_model": {"id": "tree", "type": "TimeTreeModel", "newick": "((t0,t1),(t2,t3));",
+                            "taxa": "taxa", "internal_heights": P("heights", [1.2, 1.9, 3.1])},
+             "site_model": {"id": "site", "type": "ConstantSiteModel"},
+             "substitution_model": {"id": "subst", "type": "JC69"},
+             "branch_model": {"id": "clock", "type": "StrictClockModel", "tree_model": "tree",
+                              "rate": P("rate", [0.07])},
+             "site_pattern": {"id": "sp", "type": "SitePattern", "alignment": {
+                 "id": "aln", "type": "Alignment", "datatype": "nucleotide", "taxa": "taxa",
+                 "sequences": [{"taxon": l, "sequence": q} for l, q in zip(labels, seqs)]}}},
+            {"id": "coalescent", "type": "ConstantCoalescentModel", "theta": P("theta", [2.5]),
+             "tree_model": "tree"},
+        ]},
+    ]
     return g
 
 
@@ -245,7 +264,7 @@ def _nudge(cur):
 INITIAL = {}
 
 
-def probe(dic, spec0, cache):
+def probe(dic, spec0, cache, reverse=False):
     """compare every observable of the live graph with a graph freshly built from the current
     base values; returns list of (name, detail)"""
     import torch
@@ -264,7 +283,7 @@ def probe(dic, spec0, cache):
     ref = cache[key]
     if ref is None:
         return "unbuildable", []
-    live = gs.observe(dic)
+    live = gs.observe(dic, reverse=reverse)
     bad = []
     for name, rv in ref.items():
         lv = live.get(name)
@@ -322,6 +341,14 @@ def explore(item):
         status, bad = probe(dic, spec0, cache)
         if status != "ok":
             continue
+        if not bad and not reduced:
+            # the order in which the observables are read must not matter: second replica,
+            # observables read in the opposite order
+            dic_r = tt.load(spec0)
+            for pos, op in enumerate(hist):
+                apply(dic_r, spec0, op, pos)
+            _, bad = probe(dic_r, spec0, cache, reverse=True)
+            ntrans += 1
         for obs, detail in bad[:3]:
             upd = [o for o in hist if o[0] not in ("eval", "eval_all")]
             viols.append({"case": {"graph": name, "history": hist},
@@ -385,7 +412,6 @@ EXCLUDED = {
     "LG": "no parameters", "WAG": "no parameters",
     "InvariantSiteModel": "covered through WeibullSiteModel+invariant only",
     "GeneralSymmetricSubstitutionModel": "no fixture", "GeneralNonSymmetricSubstitutionModel": "no fixture",
-    "TimeTreeModel": "plain heights model: covered by C01 second-point evaluation",
 }
 
 
